@@ -26,10 +26,12 @@ Qed.
 Lemma assign1_not_oof l v e : assign1 l v e <> OOutOfFuel.
 Proof.
   destruct l; cbn; try discriminate.
-  destruct (eval e i) as [[]| |]; try discriminate.
-  destruct (get x e); try discriminate.
-  - destruct v; try discriminate. destruct (in_bounds _ _); discriminate.
-  - destruct (in_bounds _ _); discriminate.
+  - destruct (eval e i) as [[]| |]; try discriminate.
+    destruct (get x e); try discriminate.
+    + destruct v; try discriminate. destruct (in_bounds _ _); discriminate.
+    + destruct (in_bounds _ _); discriminate.
+  - destruct (eval e k) as [[]| |]; try discriminate.
+    destruct (get x e); discriminate.
 Qed.
 
 Lemma assign_all_not_oof ls : forall vs e, assign_all ls vs e <> OOutOfFuel.
@@ -134,6 +136,13 @@ Lemma wp_copy_str p dst src e (Q : outcome -> Prop) d s :
   Q (ONormal (upd dst (VStr (copy_into d s)) e)) -> wp p (SCopy dst src) e Q.
 Proof.
   intros E G H. apply (wp_step _ _ _ _ O); cbn [exec_step]; rewrite E, G; [discriminate|exact H].
+Qed.
+
+Lemma wp_oracle p ls fn args e (Q : outcome -> Prop) vs rets :
+  evals e args = EVs vs -> p_oracle p fn vs = Some rets -> Q (assign_all ls rets e) ->
+  wp p (SOracle ls fn args) e Q.
+Proof.
+  intros E Ho H. apply (wp_step _ _ _ _ O); cbn [exec_step]; rewrite E, Ho; [apply assign_all_not_oof|exact H].
 Qed.
 
 Lemma wp_seq p a b e (Q : outcome -> Prop) :
@@ -360,7 +369,7 @@ Proof. intros H. rewrite (nth_indep _ VUnset (v_strs [])) by (rewrite map_length
 (** reduction of the interpreter's own functions only: arithmetic, comparisons, [wrap],
     [in_bounds], list functions on symbolic data stay folded *)
 Ltac ev :=
-  cbn [eval evals ebind slice_from_val slice_range_val be_val has_val nth_error binop_val binop_int binop_str binop_bool is_nilish
+  cbn [eval evals ebind slice_from_val slice_range_val be_val has_val map_get_val map_has_val nth_error binop_val binop_int binop_str binop_bool is_nilish
        items_of set_opt upd get nth assign_all assign1 loop_ctl Nat.eqb call_result ret_of
        wp_items f_nparams f_nvars f_outs f_body byte_val map negb Bool.eqb orb andb].
 
@@ -402,7 +411,7 @@ Proof. apply map_length. Qed.
 
 Ltac lens := rewrite ?length_map_VStr, ?length_map_v_strs, ?length_map_v_nat, ?length_map_byte_val,
                      ?app_length, ?skipn_length.
-Ltac side := lens; lia.
+Ltac side := cbn [length]; lens; lia.
 
 Lemma is_neg_false z : 0 <= z -> is_neg z = false.
 Proof. intros H. apply Z.ltb_ge. exact H. Qed.
@@ -410,9 +419,15 @@ Proof. intros H. apply Z.ltb_ge. exact H. Qed.
 Lemma leb_true a b : (a <= b)%nat -> (a <=? b)%nat = true.
 Proof. apply Nat.leb_le. Qed.
 
+(** hook for kernel-specific normalisations (redefine with [::=]) *)
+Ltac norm_extra := fail.
+
 Ltac norm1 :=
   first
     [ rewrite Nat2Z.id
+    | progress change (Z.to_nat 0) with 0%nat
+    | progress change (Z.to_nat 1) with 1%nat
+    | norm_extra
     | rewrite wrap_s64 by side
     | rewrite wrap_u32 by side
     | rewrite wrap_u16 by side
@@ -464,6 +479,8 @@ Ltac stepn :=
   | |- wp _ (SReturn _) _ _ => eapply wp_return; [evn; reflexivity|ev]
   | |- wp _ (SIf _ _ _) _ _ => eapply wp_if; [evn; reflexivity|ev]
   | |- wp _ (SRange _ _ _ _ _) _ _ => eapply wp_range; [evn; reflexivity|ev; reflexivity|]
+  | |- wp _ (SOracle _ _ _) _ _ =>
+      eapply wp_oracle; [evn; reflexivity|cbn [p_oracle with_oracle]|ev; repeat (norm1; ev)]
   | |- wp _ (SCopy _ _) _ _ =>
       first [ eapply wp_copy_list; [evn; reflexivity|ev; reflexivity|ev]
             | eapply wp_copy_str; [evn; reflexivity|ev; reflexivity|ev] ]
@@ -652,3 +669,25 @@ Proof. unfold beqb. rewrite (bcmp_antisym x y). destruct (bcmp x y); reflexivity
 (** [run_with t]: symbolic execution to the leaves, applying the normalisation [t] to the
     conditions as they appear *)
 Ltac run_with t := repeat first [stepn | progress t | split_if_auto].
+
+Lemma firstn_S_nth {A} (l : list A) n d : (n < length l)%nat -> firstn (S n) l = firstn n l ++ [nth n l d].
+Proof.
+  revert n; induction l as [|a l IH]; intros [|n] H; cbn in *; try lia; [reflexivity|].
+  f_equal. apply IH. lia.
+Qed.
+
+(** results do not depend on the fuel *)
+Lemma run_func_det p fd args f1 f2 r1 r2 :
+  run_func f1 p fd args = r1 -> run_func f2 p fd args = r2 ->
+  r1 <> FOutOfFuel -> r2 <> FOutOfFuel -> r1 = r2.
+Proof.
+  unfold run_func. destruct (Nat.eqb (length args) (f_nparams fd)); [|congruence].
+  intros H1 H2 N1 N2.
+  assert (E1 : exec f1 p (f_body fd) (init_env fd args) <> OOutOfFuel).
+  { intro C. rewrite C in H1. cbn in H1. congruence. }
+  assert (E2 : exec f2 p (f_body fd) (init_env fd args) <> OOutOfFuel).
+  { intro C. rewrite C in H2. cbn in H2. congruence. }
+  rewrite <- (exec_mono f1 (Nat.max f1 f2)) in H1 by (try lia; exact E1).
+  rewrite <- (exec_mono f2 (Nat.max f1 f2)) in H2 by (try lia; exact E2).
+  congruence.
+Qed.
